@@ -81,6 +81,11 @@ def check_forwarding(ctx, res: Result, callers: Iterable[str], rule="F-FWD"):
         if not forwarded and opaque_star:
             res.unknown(rule, f, text, f"{cf.callee.short}:forwarded", "arguments are passed through * / ** unpacking: what is forwarded is not visible at the call", where)
             continue
+        # `hg.degree(node, **selection)` with `selection = _order_filter(order, size)`: the filter travels inside the keyword dict
+        star_carrier = [kw.value.id for kw in cf.node.keywords if kw.arg is None and isinstance(kw.value, ast.Name) and kw.value.id in _carriers(ctx, cf, fp)]
+        if not forwarded and star_carrier:
+            res.unknown(rule, f, text, f"{cf.callee.short}:forwarded", f"the filter is handed on inside `**{star_carrier[0]}`, a keyword dict computed from the caller's filters", where)
+            continue
         if not forwarded and _under_opaque_filter_test(ctx, cf, [p for p, s_ in state.items() if s_ is not True]):
             res.unknown(rule, f, text, f"{cf.callee.short}:forwarded", "the unfiltered call stands under a test computed from the caller's filters by a predicate that is not a plain None test (an `is_open`-style helper): whether the filters are absent there is not decided", where)
             continue
@@ -140,6 +145,10 @@ def _under_opaque_filter_test(ctx, cf, open_filters) -> bool:
         for c in ast.walk(t_i):
             if isinstance(c, ast.Call):
                 in_calls |= {x.id for a in list(c.args) + [k.value for k in c.keywords] for x in ast.walk(a) if isinstance(x, ast.Name)}
+        # a carrier object asked about itself: `if query.unfiltered:` / `if query.is_open():`
+        for c in ast.walk(iff.test):
+            if isinstance(c, ast.Attribute) and isinstance(c.value, ast.Name):
+                in_calls.add(c.value.id)
         if not set(open_filters) <= in_calls:
             continue
         if any(v.cfg.branch_dominated(tid, lab, cid) for lab in ("T", "F")):
